@@ -74,10 +74,10 @@ SPEC = {
     "lean_modules": ["RsslVerif.Thm.C14"],
     "theorems": [T + n for n in [
         "tables_as_modelled", "insert_shift", "line_shift", "line_shift_before", "inline_trivia_shift",
-        "lineCol_injective", "lineCol_bounds", "include_location", "include_independent_of_includer",
+        "lineCol_injective", "lineCol_bounds", "applyEdits_tracks", "include_location", "include_independent_of_includer",
         "sourceLocation_eq", "location_in_range", "line_shift_located", "later_files_unaffected",
         "earlier_files_unaffected", "sourceLine_eq_lineAround", "writeMessage_located", "writeMessage_unlocated",
-        "message_render_shift", "boundary_preserved", "trivia_insensitive", "toy_lexesAs", "toy_adjacent",
+        "message_render_shift", "boundary_preserved", "trivia_insensitive", "trivia_insensitive_rejected", "toy_lexesAs", "toy_adjacent",
         "toy_distant", "angle_bracket_not_closed", "macro_call_gap_inline_insensitive",
         "macro_call_gap_linebreak_witness", "macro_call_gap_insensitive_if_fixed", "empty_argument_linebreak_witness"]],
     "harness": "c14",
